@@ -640,6 +640,14 @@ func emitObs(w *caseWriter, o *pkgObs) {
 	if b, ok := o.Raw["mtree"]; ok && emitMtree && len(b) <= 262144 {
 		w.line("mtreeraw %s", xs(string(b)))
 	}
+	// C03 / C08: the md5sums and conffiles control members byte for byte, for the line-list models
+	if emitLists {
+		for _, k := range []string{"md5sums", "conffiles"} {
+			if b, ok := o.Raw[k]; ok && len(b) <= 262144 {
+				w.line("rawlist %s %s", k, xs(string(b)))
+			}
+		}
+	}
 	if o.Triggers != "" {
 		w.line("triggers %s", xs(o.Triggers))
 	}
@@ -729,8 +737,8 @@ func dpkgDebAccepts(o *pkgObs, raw []byte) {
 	}
 }
 
-// emitMtree: set for C03 runs only
-var emitMtree bool
+// emitMtree: set for C03 runs only; emitLists: C03 and C08
+var emitMtree, emitLists bool
 
 // emitCpio: set for C04 runs only (the other properties sharing this emitter do not need the bytes)
 var emitCpio bool
@@ -1014,6 +1022,7 @@ func cmdPkg(prop, tier string, seed int64, out, statsOut, replay string) {
 	st := newPkgStats()
 	emitCpio = prop == "C04"
 	emitMtree = prop == "C03"
+	emitLists = prop == "C03" || prop == "C08"
 	if replay != "" {
 		replayPkg(replay, w, st, nil)
 	} else {
